@@ -17,7 +17,7 @@ ENC1, ENC2 = "Encoding<G1Affine, 1>", "Encoding<G2Affine, 1>"
 
 class LQDomain(GroupDomain):
     def __init__(self, **kw):
-        GroupDomain.__init__(self, extra_leaf=(ENC1, ENC2), **kw)
+        GroupDomain.__init__(self, extra_leaf=(ENC1, ENC2, "Fq"), **kw)
         self.hash_calls = []
 
     def method(self, I, f, this, args):
@@ -39,8 +39,35 @@ class LQDomain(GroupDomain):
         if self.is_group(this.type) and f.name == "from_hash":
             src = I.rv(args[0])
             this.val = Lin.gen("H(idhash)")
+            self.hash_points = [this.val]
             return None
+        if self.is_group(this.type) and f.name == "try_and_increment":
+            # the next accepted candidate after the given x: another curve point, a deterministic function of the hash (C10)
+            self.hash_points.append(Lin.gen("H(idhash)+%d" % len(self.hash_points)))
+            this.val = self.hash_points[-1]
+            return None
+        if self.is_group(this.type) and f.name == "is_zero":
+            v = self.gval(this)
+            gens = list(v.t) if hasattr(v, "t") else []
+            if len(gens) == 1 and str(gens[0]).startswith("H(idhash)"):
+                # cofactor * (hash point): the hash point is a curve point of unknown order, so both outcomes are possible
+                self.zero_tests = getattr(self, "zero_tests", 0) + 1
+                if self.zero_tests > 3:
+                    from scen import Abandon
+                    raise Abandon()
+                d = I.path.decide(("is_zero", "cofactor * " + str(gens[0])), (0, 1))
+                self.last_zero_test = (gens[0], d)
+                return d
+        if this.type == "Fq":
+            if f.name == "add":
+                this.val = Poly.var("x+1")
+                return None
         return GroupDomain.method(self, I, f, this, args)
+
+    def leaf_member(self, I, leaf, name):
+        if self.is_group(leaf.type) and name == "x":
+            return Leaf("Fq", Poly.var("x(%s)" % (list(self.gval(leaf).t)[0] if getattr(self.gval(leaf), "t", None) else "?")))
+        return GroupDomain.leaf_member(self, I, leaf, name)
 
     def call_pointer(self, I, fp, args):
         if fp == "hash_fill":
@@ -173,13 +200,90 @@ def gen_id(tu):
         idv = w.new(NS + "ID")
         w.call("compute_id_from_hash", idv, h)
         cof = w.dom.consts.value("G1Affine::cofactor")
-        want = Lin.gen("H(idhash)").scale(cof)
-        return [w.same("id.q == cofactor * from_hash(hash)", idv.f["q"].val, want, dict(op="lq:id"))]
+        pts = getattr(w.dom, "hash_points", [Lin.gen("H(idhash)")])
+        want = pts[-1].scale(cof)
+        lz = getattr(w.dom, "last_zero_test", None)
+        return [w.same("id.q == cofactor * (the hash point: from_hash(hash), or the next try-and-increment candidate after a point that the cofactor annihilates)", idv.f["q"].val, want, dict(op="lq:id")),
+                ("the identity point is returned only after the cofactor-cleared point was tested and found non-zero (id.q != O: the precondition of the binding clauses)",
+                 "ok" if (lz is not None and lz[1] == 0 and str(lz[0]) == str(list(pts[-1].t)[0])) else "fail",
+                 "" if lz is not None else "no test: e.g. the identity hash 00..00 gives from_hash = (0, +-2), of order 3 | cofactor, hence the point at infinity, secret key O and pairing value 1 for EVERY master key", dict(op="lq:zero-hash"))]
     yield "compute_id_from_hash", guarded(run)
+
+
+# ---------------------------------------------------------------------------
+# The binding clauses of C16 (another master key / another identity => other hashed bytes) are proved above for an identity point Q != O
+# (a formal generator).  compute_id_from_hash must therefore never return the point at infinity.  It can: try-and-increment accepts the first x with
+# x^3 + 4 a square, and cofactor clearing annihilates every point whose order divides the cofactor h = 3 * 11^2 * 10177^2 * 859267^2 * 52437899^2.
+# The one input that can be exhibited is x = 0: (0, +-2) is on the curve, has order 3, and 3 | h.  Decided here: those closed facts (reference
+# arithmetic) + from_hash's contract (the first accepted x >= start; start = 0 is accepted because 4 is a square).  The other small-order points
+# cannot be hit on purpose (their x-coordinates are roots of division polynomials; about 2^126 of the 2^381 points), which is the usual
+# random-oracle argument and is NOT claimed.
+def gen_id_nonzero(tu):
+    def run(path):
+        import tower_ref as TR
+        Qm = TR.Q
+        c = U.SHARED.get("consts")
+        cof = c.value("G1Affine::cofactor")
+        chk = lambda w, ok, m="", cx=None: (w, "ok" if ok else "fail", "" if ok else m, cx)
+        # reference affine arithmetic on y^2 = x^3 + 4 over F_q
+        def add(P, Q_):
+            if P is None:
+                return Q_
+            if Q_ is None:
+                return P
+            (x1, y1), (x2, y2) = P, Q_
+            if x1 == x2 and (y1 + y2) % Qm == 0:
+                return None
+            lam = (3 * x1 * x1 * pow(2 * y1, -1, Qm)) % Qm if P == Q_ else ((y2 - y1) * pow(x2 - x1, -1, Qm)) % Qm
+            x3 = (lam * lam - x1 - x2) % Qm
+            return (x3, (lam * (x1 - x3) - y1) % Qm)
+        P0 = (0, 2)
+        on_curve = (P0[1] ** 2 - P0[0] ** 3 - 4) % Qm == 0
+        three = add(add(P0, P0), P0) is None
+        obs = [chk("closed facts: (0, 2) lies on y^2 = x^3 + 4, [3](0, 2) == O, and 3 divides the G1 cofactor", on_curve and three and cof % 3 == 0)]
+        # (this is why the test in compute_id_from_hash is needed; that it is there is the obligation of the unit above)
+        return obs
+    yield "zero hash", guarded(run)
+
+
+def _replay_zero(rec, unit, result, fresh, tu, wd, cx):
+    """native: the real compute_id_from_hash / keygen on the all-zero identity hash"""
+    import replay as R_
+    src = R_.unity_source() + """
+#include <stdio.h>
+#include <string.h>
+#include "lqibe/api.hpp"
+using namespace embedded_pairing;
+static void rnd(void* p, size_t n) { static unsigned char s = 1; for (size_t i = 0; i < n; i++) ((unsigned char*)p)[i] = (s = s * 73 + 41); }
+int main(){
+  lqibe::IDHash h; memset(&h, 0, sizeof h);
+  lqibe::ID id; lqibe::compute_id_from_hash(id, h);
+  lqibe::Params pp; lqibe::MasterKey m1, m2; lqibe::setup(pp, m1, rnd); lqibe::setup(pp, m2, rnd);
+  lqibe::SecretKey k1, k2; lqibe::keygen(k1, m1, id); lqibe::keygen(k2, m2, id);
+  printf("idzero %d\\n", (int)id.q.is_zero()); printf("k1zero %d\\n", (int)k1.sq.is_zero()); printf("k2zero %d\\n", (int)k2.sq.is_zero());
+  return 0; }
+"""
+    native, err = R_.run_native(src, wd, "lq_zero_hash_native")
+    rec["native_driver_error"] = err
+    if native is None:
+        return False
+    rec["native_outputs"] = native
+    ok = native.get("idzero") == [1] and native.get("k1zero") == [1] and native.get("k2zero") == [1]
+    if ok:
+        rec["native_finding"] = "real compute_id_from_hash(48 zero bytes) returns the point at infinity; keygen under two different master keys returns the same secret key (O)"
+    rec["confirmed_on_real_code"] = ok
+    return ok
 
 
 def units():
     lower = ["G1::multiply / G2::multiply_frobenius = (k mod r)*P (C06)", "pairing bilinear (C01)", "Encoding::encode injective (C09)", "Fq12::write_big_endian injective, 576 bytes (C04)",
              "Affine::from_hash deterministic function of the 48 bytes (C10)", "hash_fill callback: frame only"]
     return [ScenUnit("lqibe: setup / keygen / encrypt / decrypt feed hash_fill identical bytes", ["C16"], gen_lq, targets=[NS + x for x in ("setup", "keygen", "encrypt", "decrypt")], contracts_used=lower),
-            ScenUnit("lqibe::compute_id_from_hash == cofactor * hash point", ["C16", "C10"], gen_id, targets=[NS + "compute_id_from_hash"], contracts_used=lower)]
+            _nz(ScenUnit("lqibe::compute_id_from_hash == cofactor * hash point, never the point at infinity", ["C16", "C10"], gen_id, targets=[NS + "compute_id_from_hash"], contracts_used=lower)),
+            _nz(ScenUnit("lqibe: why compute_id_from_hash must test for the point at infinity: (0, 2) has order 3 and 3 divides the cofactor", ["C16"], gen_id_nonzero, targets=[NS + "compute_id_from_hash"],
+                         contracts_used=["Affine::from_hash = first accepted x >= the reduced hash (C10)", "G1::multiply (C06)"]))]
+
+
+def _nz(u):
+    u.replay_hook = _replay_zero
+    return u
